@@ -217,7 +217,7 @@ let s3_pages (c : case) : coq_N list list =
 let shift_of (pgsz : coq_N) : coq_N =
   let rec go k = if (1 lsl k) >= int_of_n pgsz then k else go (k + 1) in n_of_int (go 0)
 
-let model_case (line : string) : string =
+let model_case_gen (dump_index : bool) (line : string) : string =
   let c = parse_case line in
   let files = Array.of_list (Stdlib.List.map read_file c.paths) in
   let rd = rd_of_files files in
@@ -226,44 +226,71 @@ let model_case (line : string) : string =
       (match ElfModel.elf_open rd (nat_of_int (Array.length files)) with
        | Codec.Err st -> "OPEN" ^ status_str st
        | Codec.Ok st0 ->
-           let pgsz = lkn c "pgsz" in
+           (* pointer size and page size as elfdump.c derives them: notes, then the machine *)
+           (match ElfGeomModel.elf_geometry rd st0 with
+            | Codec.Err e -> "OPEN" ^ status_str e
+            | Codec.Ok g ->
+           let opt = function Some x -> hex_of_n x | None -> "-" in
+           (match g.ElfGeomModel.eg_page_size with
+            | None ->
+                let r = { geom = Printf.sprintf "G:elf:%d:%s:-:?" (if st0.ElfModel.es_be then 0 else 1)
+                                   (opt g.eg_ptr_size);
+                          read = (fun _ _ _ _ -> (n_of_int 99, [])) } in
+                run_reqs r c.reqs
+            | Some pgsz ->
            let st = ref st0 in
            let r = { geom = Printf.sprintf "G:elf:%d:%s:%s:%s" (if st0.ElfModel.es_be then 0 else 1)
-                              (lk c "ptr") (hex_of_n pgsz) (hex_of_n (ElfModel.elf_max_pfn st0 (shift_of pgsz)));
+                              (opt g.eg_ptr_size) (hex_of_n pgsz)
+                              (hex_of_n (ElfModel.elf_max_pfn st0 (shift_of pgsz)));
                      read = (fun z a addr len ->
                        if a <> 'M' && a <> 'V' then (n_of_int 99, [])
                        else begin
                          let ((s, data), st') = ElfModel.elf_read rd pgsz z (a = 'V') !st addr len in
                          st := st'; (s, data) end) } in
-           run_reqs r c.reqs)
+           run_reqs r c.reqs)))
   | "lkcd" ->
       let (_, recs) = read_stream c.img in
       let tab = Hashtbl.create 64 in
       Stdlib.List.iter (fun r -> Hashtbl.replace tab (string_of_list r.lpayload) r.lcontent) recs;
       let gunzip payload = Hashtbl.find_opt tab (string_of_list payload) in
-      (match LkcdModel.lk_open rd (nat_of_int (Array.length files)) with
+      (* the block-level model of the PFN index (Fmt/LkcdIndexModel.v) *)
+      let index_dump (st : LkcdIndexModel.kb_state) =
+        if not dump_index then "" else begin
+          let buf = Buffer.create 256 in
+          Buffer.add_string buf (Printf.sprintf "|I:%s:%s:%s:" (hex_of_n st.LkcdIndexModel.kb_last)
+                                   (hex_of_n st.kb_end) (hex_of_n st.kb_max_pfn));
+          let slots = Stdlib.List.sort (fun (a, _) (b, _) -> compare (int_of_n a) (int_of_n b)) st.kb_tbl in
+          Stdlib.List.iter (fun (slot, chain) ->
+            Buffer.add_string buf (Printf.sprintf "s%s[" (hex_of_n slot));
+            Stdlib.List.iter (fun b ->
+              Buffer.add_string buf (Printf.sprintf "%s@%s" (hex_of_n b.LkcdIndexModel.b_idx3) (hex_of_n b.b_filepos));
+              Stdlib.List.iter (fun o -> Buffer.add_string buf ("," ^ hex_of_n o)) b.b_offs;
+              Buffer.add_char buf ';') chain;
+            Buffer.add_char buf ']') slots;
+          Buffer.contents buf
+        end in
+      (match LkcdIndexModel.kb_open rd (nat_of_int (Array.length files)) with
        | Codec.Err st -> "OPEN" ^ status_str st
        | Codec.Ok st0 ->
            let st = ref st0 in
-           let z = ref false in
-           ignore z;
            String.concat " " (Stdlib.List.map (fun t ->
              if t = "G" then begin
-               let (r, st') = LkcdModel.lk_scan_max_pfn rd lk_fuel !st in
+               let (r, st') = LkcdIndexModel.kb_scan_max_pfn rd lk_fuel !st in
                st := st';
-               match r with
-               | Codec.Ok m -> Printf.sprintf "G:lkcd:%d:%s:%s:%s" (if st0.LkcdModel.lk_be then 0 else 1)
-                                 (lk c "ptr") (hex_of_n st0.lk_page_size) (hex_of_n m)
-               | Codec.Err e -> Printf.sprintf "G:lkcd:%d:%s:%s:!%s" (if st0.LkcdModel.lk_be then 0 else 1)
-                                 (lk c "ptr") (hex_of_n st0.lk_page_size) (status_str e)
+               (match r with
+               | Codec.Ok m -> Printf.sprintf "G:lkcd:%d:%s:%s:%s" (if st0.LkcdIndexModel.kb_be then 0 else 1)
+                                 (lk c "ptr") (hex_of_n st0.kb_page_size) (hex_of_n m)
+               | Codec.Err e -> Printf.sprintf "G:lkcd:%d:%s:%s:!%s" (if st0.LkcdIndexModel.kb_be then 0 else 1)
+                                 (lk c "ptr") (hex_of_n st0.kb_page_size) (status_str e))
+               ^ index_dump !st
              end
              else if t = "Z0" || t = "Z1" then "Z"
              else if t.[0] = 'R' then begin
                match split_on ':' (String.sub t 1 (String.length t - 1)) with
                | [a; addr; len] when a = "M" ->
-                   let ((s, data), st') = LkcdModel.lk_read rd gunzip lk_fuel !st (n_of_hex addr) (n_of_hex len) in
+                   let ((s, data), st') = LkcdIndexModel.kb_read rd gunzip lk_fuel !st (n_of_hex addr) (n_of_hex len) in
                    st := st';
-                   Printf.sprintf "R%s:%x:%x" (status_str s) (Stdlib.List.length data) (fnv1a data)
+                   Printf.sprintf "R%s:%x:%x" (status_str s) (Stdlib.List.length data) (fnv1a data) ^ index_dump !st
                | _ -> "?"
              end else "?") c.reqs))
   | "s390" ->
@@ -335,9 +362,8 @@ let enc_case (line : string) : string =
            (* one file per window "start-end", in the order of the paths *)
            let wins = Stdlib.List.map (fun w -> match split_on '-' w with
              | [a; b] -> (n_of_hex a, n_of_hex b) | _ -> failwith "bad window") (split_on '.' sp) in
-           let sizes = Stdlib.List.map2 (fun path (a, b) ->
-             let l = { l0 with DiskdumpSpec.dl_split = true; dl_start_pfn = a; dl_end_pfn = b } in
-             write_file path (DiskdumpSpec.encode_dd l pages)) c.paths wins in
+           let outs = DiskdumpSpec.encode_dd_set l0 wins pages in
+           let sizes = Stdlib.List.map2 write_file c.paths outs in
            "ok " ^ String.concat "," (Stdlib.List.map string_of_int sizes))
   | f -> failwith ("unknown format " ^ f)
 
@@ -403,4 +429,5 @@ let spec_case (line : string) : string =
       ignore pgsz; run_reqs r c.reqs
   | f -> failwith ("unknown format " ^ f)
 
-let engines = [ "fmt", model_case; "fmt-enc", enc_case; "fmt-spec", spec_case ]
+let model_case = model_case_gen false
+let engines = [ "fmt", model_case; "fmt-lkidx", model_case_gen true; "fmt-enc", enc_case; "fmt-spec", spec_case ]
